@@ -1,4 +1,5 @@
 import PlasVerif.Proofs.IfThen
+import PlasVerif.Proofs.IfThenNum
 /-!
 # C19 — ifthen tests evaluate as the boolean expression they spell
 
@@ -73,5 +74,24 @@ theorem whiledo_iterates_exactly {σ τ} (test : σ → Bool) (body : σ → σ 
 /-- non-vacuity: a counter loop `while s < 3: s += 1; emit s` runs 3 times -/
 example : whiledo (fun s : Nat => decide (s < 3)) (fun s => (s + 1, [s])) 10 0 [] = some (3, [0, 1, 2]) := by
   decide
+
+open PlasVerif.Spec.Numeral PlasVerif.Proofs.IfThenNum in
+/-- An integer operand spelled as a TeX ⟨number⟩ — any number of `+`/`-` signs, each followed by any number of blanks, then
+    a non-empty decimal digit string — is read as the integer it denotes: negated once per minus sign.
+    (`readSigned` is `ifthenelse.evaluate`'s operand collection + `TeX.readInteger`; stream `num` ties it to the code.
+    Before the `fix:` commit for D54 the real code ended the operand at the first blank.) -/
+theorem signed_operand_value (signs : List Sign) (d : Nat) (ds : List Nat) (h : ∀ x ∈ d :: ds, x < 10) :
+    readSigned (spell signs (d :: ds)) = some (denote signs (d :: ds)) := by
+  have hd : d < 10 := h d (by simp)
+  have hr := readDigits_map 0 (d :: ds) h
+  simp only [List.map_cons] at hr
+  simp only [readSigned, spell, readSigns_spell, List.map_cons, readSigns_digit _ hd, digitChar_isDigit hd, if_true, hr,
+    denote, decimalValue, Int.one_mul]
+
+open PlasVerif.Spec.Numeral in
+/-- non-vacuity: `- +  -12` denotes 12 and is read as 12; `-7` as -7 -/
+example : readSigned (spell [⟨true, 1⟩, ⟨false, 2⟩, ⟨true, 0⟩] [1, 2]) = some 12
+    ∧ spell [⟨true, 1⟩, ⟨false, 2⟩, ⟨true, 0⟩] [1, 2] = "- +  -12".toList
+    ∧ readSigned "-7".toList = some (-7) := by decide
 
 end PlasVerif.Properties.C19
